@@ -85,10 +85,16 @@ package headers
 
 // net/http never hands out a header map with an empty value list.
 //@ spec func specLineForbids(v string) bool = exists k int :: 0 <= k && k < splitlen(sid(v), ",") && (specForbids(specDir(sid(v), k)) || (specIsMaxAge(specDir(sid(v), k)) && specMaxAge(specDir(sid(v), k)) < 1))
-//@ props C16 C04 C03
+// A parsed Range has both ends >= -1, a parsed If-Range is an entity tag or a date.
+//@ spec func specHdRangeInv(hd ptr) bool = (hd.Range.value.some ==> hd.Range.value.value.start >= -1 && hd.Range.value.value.end >= -1) && (hd.IfRange.value.some ==> (hd.IfRange.value.value.left.some || hd.IfRange.value.value.right.some))
+// Every Header of a HeaderDirectives carries the canonical name of its field.
+//@ spec func specHdNames(hd ptr) bool = hd.IfModifiedSince.name == "If-Modified-Since" && hd.IfUnmodifiedSince.name == "If-Unmodified-Since" && hd.IfNoneMatch.name == "If-None-Match" && hd.IfMatch.name == "If-Match" && hd.Range.name == "Range"
+//@ props C16 C04 C03 C06
 //@ func ParseHeaderDirective
 //@   nopanic
 //@   pure
+//@   ensures [C06] specHdNames(result)
+//@   ensures [C07] specHdRangeInv(result)
 //@   requires forall k key :: in(header, k) ==> len(header[k]) > 0
 //@   ensures result != nil
 //@   ensures [C04] in(header, "Cache-Control") <==> result.CacheControl.value.some
@@ -97,6 +103,7 @@ package headers
 //@   ensures [C03] in(header, "Expires") && !timeparse_ok(sid(header["Expires"][0])) ==> result.Expires.value.value == 0
 //@   ensures [C03] in(header, "Expires") && timeparse_ok(sid(header["Expires"][0])) ==> result.Expires.value.value == timeparse_val(sid(header["Expires"][0]))
 //@   loop 1 invariant hd != nil && (forall k key :: in(header, k) ==> len(header[k]) > 0)
+//@   loop 1 invariant specHdRangeInv(hd)
 //@   loop 1 invariant visited[sid("Cache-Control")] <==> hd.CacheControl.value.some
 //@   loop 1 invariant visited[sid("Cache-Control")] ==> in(header, "Cache-Control") && (forall i int :: 0 <= i && i < len(header["Cache-Control"]) && specLineForbids(header["Cache-Control"][i]) ==> hd.CacheControl.value.value.noCache)
 //@   loop 1 invariant visited[sid("Expires")] <==> hd.Expires.value.some
@@ -125,3 +132,8 @@ package headers
 //@ props C16 C06
 //@ func HeaderDirectives.StripRegularConditionals
 //@   nopanic
+//@   assigns HeaderDirectives map_
+//@   requires header != nil && specHdNames(hd)
+//@   ensures [C06] !in(header, "If-None-Match") && !in(header, "If-Modified-Since") && !in(header, "If-Match") && !in(header, "If-Unmodified-Since")
+//@   ensures forall k key :: in(header, k) ==> old(in(header, k)) && header[k] == old(header[k])
+//@   ensures hd.Range == old(hd.Range) && hd.IfRange == old(hd.IfRange)
